@@ -105,6 +105,11 @@ deriving Repr
 
 def isErrDest (d : String) : Bool := d.startsWith "E"
 
+/-- Answers by which a broker says "not mine (any more)": UNKNOWN_TOPIC_OR_PARTITION, NOT_LEADER_FOR_PARTITION,
+COORDINATOR_LOAD_IN_PROGRESS, COORDINATOR_NOT_AVAILABLE, NOT_COORDINATOR. Every other answer (success or an item-level
+error such as GROUP_ID_NOT_FOUND) means the broker accepted responsibility for the item. -/
+def staleCode (c : Int) : Bool := c == 3 || c == 6 || c == 14 || c == 15 || c == 16
+
 def countOf (x : String) (l : List String) : Nat := l.count x
 
 /-- Multiset equality of string lists. -/
@@ -126,7 +131,7 @@ def specPartition (dedup : Bool) (requested : List String) (shards : List ObsSha
   else none
 
 /-- Each shard is where the layout says: an error shard holds exactly the items that are unmappable for that reason,
-no unmappable item is sent to a broker, and an item a broker answered without error was led / coordinated by that
+no unmappable item is sent to a broker, and an item a broker accepted (any answer but `staleCode`) was led / coordinated by that
 broker when the request reached it (`ver` = layout version at that moment, from the wire view). Also a broker's
 response names exactly the items of the request it got (as sets; not for the all-broker fan-outs, whose responses
 list groups / transactions rather than requested items). -/
@@ -141,7 +146,7 @@ def specLayout (fan : Bool) (layouts : List (Nat × List (String × String))) (s
   else if shards.any (fun s => !isErrDest s.dest && s.req.any (fun x =>
       match lookup lastVer x with | some d => isErrDest d | none => true)) then some "C23.unmappable-item-sent-to-broker"
   else if shards.any (fun s => match s.resp, s.ver with
-      | some r, some v => !isErrDest s.dest && !fan && r.any (fun (x, c) => c == 0 &&
+      | some r, some v => !isErrDest s.dest && !fan && r.any (fun (x, c) => !staleCode c &&
           (match lookup v x with | some d => d != "any" && d != s.dest | none => true))
       | _, _ => false) then some "C23.item-answered-by-broker-not-in-layout"
   else if shards.any (fun s => !isErrDest s.dest && s.ver.isNone) then some "C23.shard-without-wire-request"
@@ -207,5 +212,18 @@ def strKind : Kind String String (List (String × String)) where
 same piece under the same layout, so they do not change which destination holds which items): destination → items. -/
 def predictStatic (dedup : Bool) (lay : List (String × String)) (requested : List String) : List (Shard String String) :=
   issue strKind (fun _ _ _ => .final) 0 0 lay (if dedup then dedupS requested else requested)
+
+/-- When the layout changed during the request: every item ends in the shard of its destination under the layout that
+was in force when the last attempt carrying it reached a broker (`verOf`), because an attempt that reaches a broker
+that no longer leads / coordinates the item fails retriably and is re-split (`issue` with the oracle the wire view
+shows). Items never sent (unmappable) keep their error destination. -/
+def predictMoved (dedup : Bool) (layouts : List (Nat × List (String × String))) (verOf : String → Nat) (requested : List String) :
+    List (Shard String String) :=
+  let k : Kind String String (String → String) := { place := fun f x => f x, solo := fun _ => false, isErr := isErrDest, anyDest := "any" }
+  let placeFn : String → String := fun x =>
+    match layouts.find? (·.1 == verOf x) with
+    | some (_, kv) => strKind.place kv x
+    | none => "E?"
+  issue k (fun _ _ _ => .final) 0 0 placeFn (if dedup then dedupS requested else requested)
 
 end Model.C23
